@@ -3,6 +3,9 @@
 import json, os, glob
 HERE = os.path.dirname(os.path.dirname(os.path.abspath(__file__)))
 CHECKS = {
+ "C08": dict(cat="model_checking", tech="explicit-state exploration of the real Backend.convert by history replay: all rule-kind sequences up to length 4-5 x collect_errors x pipeline x backend config; invariant vs per-rule fresh conversions",
+             text="Every collection (sequence over an 11-kind menu with a failing kind per stage) up to the length bound is converted on fresh real objects; in every reached state the queries must equal the concatenation of per-rule fresh conversions, error records one per failing rule in order, class attributes restored, and a probe conversion on the used backend equal to a fresh one. States, transitions and histories are counted by the run; replay determinism is checked first.",
+             note="reference = fresh per-rule conversion with the same configuration; finalizers are covered by C14", ref="§3 C08"),
  "C17": dict(cat="exploration", tech="bounded-exhaustive enumeration of placeholder values x positions x modifiers x pipelines of placeholder items on the real pipeline+backend; decoded query vs reference expansion by truth table",
              text="Every value of <= 3-4 parts over literals, wildcards, three placeholders and escaped percent signs, in string/keyword/regex position under none/contains/startswith/endswith/all, through every pipeline of <= 2-3 placeholder items (value list x variable tables, wildcard, query expression; no list / include / exclude): the query must decode to the reference expansion, or the rule must fail with a SigmaError naming the unresolved placeholder; %name% text never appears.",
              note="reference expansion semantics in checks/c17_placeholders.py; verification backend K0 only", ref="§3 C17"),
